@@ -7,7 +7,8 @@
    rank_pair_ok, make_patch_u = make_patch without PatchTree.sort). *)
 From Coq Require Import List String Ascii Bool Arith ZArith Lia Permutation Sorted.
 From Annet Require Import Base.Str Base.Tree Model.Pattern Model.Rulebook Model.Diff Model.Order Model.Patch
-     Model.Blocks Model.Pipeline Spec.PipelineCase Proofs.SortProofs Spec.P_C08 Proofs.OrderProofs.
+     Model.Blocks Model.Pipeline Spec.PipelineCase Proofs.SortProofs Spec.P_C08 Proofs.OrderProofs
+     Spec.P_C08meta Proofs.DiffRemoveProofs Proofs.MetaRowProofs Proofs.UnmentionedProofs.
 Import ListNotations.
 Open Scope list_scope.
 
@@ -249,6 +250,97 @@ Theorem C08_unrelated_row_refuted :
 Proof. exact unrelated_row_refuted. Qed.
 Print Assumptions C08_unrelated_row_refuted.
 
+(* ... and holds for every row that is unrelated in the sense the pipeline needs
+   (Spec/P_C08meta.v, meta_guard: the rules do not know the row, or it stands in old and in
+   new at the same position within its diff-logic class, is not under rewrite_diff, shares
+   its raw_rule with no other top-level row, and taking it out keeps the first-seen order of
+   the diff logics; its own subtree may differ arbitrarily).  For rulebooks of any shape,
+   any ordering rulebook, trees of any depth, any vendor.  Step by step: *)
+
+(* (1) the diff of the smaller pair is the full diff without r's entry (any row matcher) *)
+Theorem C08_diff_minus_row rmatch rs old new r :
+  meta_guard_g rmatch rs old new r = true ->
+  make_diff rmatch rs (remove_row r old) (remove_row r new) =
+  filter (keep r) (make_diff rmatch rs old new).
+Proof. exact (make_diff_rm rmatch rs old new r). Qed.
+Print Assumptions C08_diff_minus_row.
+
+(* (1') the core of (1), one call of base_diff: a row standing at the same position in old
+   and new (|o1| = |n1|) can be taken out of both and only its own entry disappears *)
+Theorem C08_base_diff_minus_row r pop inrw mta (o1 o2 : aforest) xo (n1 n2 : list ckid) xn :
+  rowof xo = r -> rowof xn = r -> List.length o1 = List.length n1 ->
+  ~ In r (map rowof o1) -> ~ In r (map rowof o2) -> ~ In r (map rowof n1) -> ~ In r (map rowof n2) ->
+  base_diff (o1 ++ o2) pop inrw mta (n1 ++ n2) =
+  filter (keep r) (base_diff (o1 ++ xo :: o2) pop inrw mta (n1 ++ xn :: n2)).
+Proof. exact (base_diff_rm r pop inrw mta o1 o2 xo n1 n2 xn). Qed.
+Print Assumptions C08_base_diff_minus_row.
+
+(* (2) make_pre of a diff without the entries of one raw_rule is make_pre without that group *)
+Theorem C08_pre_minus_group R d :
+  make_pre (filter (keepR R) d) = Pre (filter (gkeep R) (pgroups (make_pre d))).
+Proof. exact (make_pre_filter R d). Qed.
+Print Assumptions C08_pre_minus_group.
+
+(* (3) the unsorted patch of a pre without one group is the unsorted patch without the items
+   that carry the group's raw_rule in their sort key, everything else in place ... *)
+Theorem C08_unsorted_minus_group rmatch rsrc rrev block_exit rreverse R groups ordering out :
+  make_patch_u rmatch rsrc rrev block_exit rreverse (Pre groups) ordering = POk (PT out) ->
+  make_patch_u rmatch rsrc rrev block_exit rreverse (Pre (filter (gkeep R) groups)) ordering =
+  POk (PT (filter (ikeep R) out)).
+Proof. exact (make_patch_u_filter rmatch rsrc rrev block_exit rreverse R groups ordering out). Qed.
+Print Assumptions C08_unsorted_minus_group.
+
+(* (4) ... and so is the sorted patch (the sort commutes with the filter) *)
+Theorem C08_patch_minus_group rmatch rsrc rrev block_exit rreverse R groups ordering s :
+  make_patch rmatch rsrc rrev block_exit rreverse (Pre groups) ordering = POk s ->
+  make_patch rmatch rsrc rrev block_exit rreverse (Pre (filter (gkeep R) groups)) ordering =
+  POk (drop_rule R s).
+Proof. exact (make_patch_filter rmatch rsrc rrev block_exit rreverse R groups ordering s). Qed.
+Print Assumptions C08_patch_minus_group.
+
+(* (5) the pipeline: the patch of (old - r, new - r) is the patch of (old, new) without the
+   top-level items of r's rule -- same rows, same nesting, same order; it does not fail *)
+Theorem C08_unrelated_row_patch v rs ordering old new r s :
+  meta_guard rs old new r = true ->
+  snd (diff_and_patch v rs ordering old new) = POk s ->
+  snd (diff_and_patch v rs ordering (remove_row r old) (remove_row r new)) =
+  POk (match raw_of_row rs old r with Some R => drop_rule R s | None => s end).
+Proof. exact (p_unrelated_row_exact v rs ordering old new r s). Qed.
+Print Assumptions C08_unrelated_row_patch.
+
+Theorem C08_drop_rule_sublist (R : string) (s : ptree) (pre : list string) :
+  sublist (pitems (drop_rule R s)) (pitems s) /\
+  subseq (all_paths pre (drop_rule R s)) (all_paths pre s) = true.
+Proof. exact (conj (drop_rule_sublist R s) (drop_rule_subseq R s pre)). Qed.
+Print Assumptions C08_drop_rule_sublist.
+
+(* (6) the property's sentence under the guard: every two remaining commands keep their
+   relative order (at every depth: the root-to-command paths of the smaller patch are a
+   subsequence of those of the full patch) *)
+Theorem C08_unrelated_row v rs ordering old new r :
+  meta_guard rs old new r = true -> meta_order_kept v rs ordering old new r.
+Proof. exact (p_unrelated_row v rs ordering old new r). Qed.
+Print Assumptions C08_unrelated_row.
+
+(* the guard is met by a row the rules know (and the patch really shrinks), is not met by
+   a row of a shared rule, and excludes the witness of the refutation above *)
+Example C08_unrelated_row_nonvacuous :
+  meta_guard w_rules g_old g_new "foo 1"%string = true /\
+  meta_known w_rules g_old g_new "foo 1"%string = true /\
+  meta_guard w_rules g_old g_new "vlan 9"%string = false /\
+  meta_guard w_rules w_old w_new "foo 1"%string = false.
+Proof. exact meta_guard_nonvacuous. Qed.
+
+(* the clause of the correspondence run (same guard, evaluated on real outputs there) holds
+   on the model's own outputs *)
+Theorem C08_unrelated_row_clause c r :
+  c8_meta_guarded c r
+    (popt (model_patch c))
+    (popt (snd (diff_and_patch (pc_vendor c) (pc_rules c) (pc_ordering c)
+                               (remove_row r (pc_old c)) (remove_row r (pc_new c))))) = true.
+Proof. exact (p_meta_guarded_model c r). Qed.
+Print Assumptions C08_unrelated_row_clause.
+
 (* rows no rule mentions: the property's sentence, as stated ... *)
 Definition C08_unmentioned_stable_statement : Prop :=
   forall v ordering f, unmentioned_stable v ordering f (p_order_config v ordering f) = true.
@@ -281,6 +373,24 @@ Print Assumptions C08_unmentioned_stable.
 Example C08_unmentioned_stable_nonvacuous :
   has_negated_unmentioned refute_vendor [] [("b"%string, T []); ("a"%string, T [])] = false.
 Proof. vm_compute. reflexivity. Qed.
+
+(* the sentence being refuted, this is what order_config does with the rows no rule mentions,
+   for ALL inputs (no guard): in the result they are the unmentioned rows that start with the
+   negation word, in input order, followed by the other unmentioned rows, in input order.
+   C08_unmentioned_stable above is the special case in which the first list is empty. *)
+Theorem C08_unmentioned_exact rmatch rsrc rrev block_exit reverse_prefix ordering f :
+  let un := fun rc : string * tree => negb (mentioned_g rmatch rrev block_exit ordering (fst rc)) in
+  map fst (filter un (order_config rmatch rsrc rrev block_exit reverse_prefix ordering f)) =
+  map fst (filter (fun rc => un rc && negb (row_direct reverse_prefix (fst rc))) f) ++
+  map fst (filter (fun rc => un rc && row_direct reverse_prefix (fst rc)) f).
+Proof. exact (oc_unmentioned_exact rmatch rsrc rrev block_exit reverse_prefix ordering f). Qed.
+Print Assumptions C08_unmentioned_exact.
+
+(* the same as the clause evaluated on the real Orderer.order_config outputs *)
+Theorem C08_unmentioned_exact_clause v ordering f :
+  unmentioned_exact v ordering f (p_order_config v ordering f) = true.
+Proof. exact (p_unmentioned_exact v ordering f). Qed.
+Print Assumptions C08_unmentioned_exact_clause.
 
 (* clauses of P_C08 about order_config, on the model's own outputs (pipeline instance) *)
 Theorem C08_cfg_clauses v ordering f :
